@@ -72,6 +72,22 @@ class ElfPrims:
         if name.endswith("p_type_to_str"):
             p2 = path.copy()
             return [(A.SOME(("str", "ptype")), path), (A.NONE, p2)]
+        # ---- slices and byte vectors: bounds obligations (evaluated by C16.arith) + a sequence value
+        d = t["f"].get("def") or name
+        if short in ("index", "index_mut") and ("ops::Index" in name) and len(args) == 2:
+            base = I._deref_all(path, args[0])
+            rg = I._deref_all(path, args[1])
+            ev.append(("slice", base, rg, F.site_str(frame.body, t["sp"]), len(path.conds)))
+            return [(("slice", base, rg), path)]
+        if name == "std::vec::from_elem" and len(args) == 2:
+            ev.append(("vec_alloc", args[1], F.site_str(frame.body, t["sp"])))
+            return [(("filled", args[0], args[1]), path)]
+        if short == "copy_from_slice" and len(args) == 2:
+            dst, src = I._deref_all(path, args[0]), I._deref_all(path, args[1])
+            ev.append(("copy", dst, src, F.site_str(frame.body, t["sp"]), len(path.conds)))
+            return [(A.UNIT, path)]
+        if short == "len" and ("slice" in name or "Vec" in name) and len(args) == 1:
+            return [(seq_len(I._deref_all(path, args[0])), path)]
         k = self.mem.get(name)
         if k == "init_area":
             ev.append(("init_area", args[1], args[2], args[3]))
@@ -104,6 +120,111 @@ class ElfPrims:
         if short == "to_string":
             return [(("to_string", I._deref_all(path, args[0])), path)]
         return self.hp.intercept(I, path, frame, t, name, args)
+
+
+def seq_len(v):
+    """length term of a byte-sequence value. Library fact (elf crate, ElfBytes::segment_data): the slice returned for a
+    program header is file[p_offset .. p_offset + p_filesz], i.e. exactly p_filesz bytes long."""
+    while v[0] in ("w", "deref"):
+        v = v[1]
+    if v[0] == "segdata":
+        return A.W(("field", v[1], "p_filesz"), 64)
+    if v[0] == "filled":
+        return v[2]
+    if v[0] == "to_vec":
+        return seq_len(v[1])
+    if v[0] == "slice":
+        base, rg = v[1], v[2]
+        if rg[0] == "agg":
+            kind = rg[1].rsplit("::", 1)[1]
+            if kind == "RangeTo":
+                return rg[3][0]
+            if kind == "RangeFrom":
+                return ("bin", "Sub", seq_len(base), rg[3][0], 64)
+            if kind == "Range":
+                return ("bin", "Sub", rg[3][1], rg[3][0], 64)
+            if kind == "RangeFull":
+                return seq_len(base)
+    return A.LEN(v)
+
+
+def norm_len(t):
+    """normalise `len(x)` spellings inside a term"""
+    if not isinstance(t, tuple):
+        return t
+    if t and t[0] == "len" and len(t) == 2 and isinstance(t[1], tuple):
+        r = seq_len(t[1])
+        if r != t:
+            return norm_len(r)
+        return t
+    if t and t[0] == "w":
+        return norm_len(t[1])
+    if t and t[0] == "cast" and t[4] >= t[2] and not t[3]:
+        return norm_len(t[1])
+    if t and t[0] == "cast" and t[4] == t[2]:
+        return norm_len(t[1])
+    return tuple(norm_len(x) if isinstance(x, tuple) else x for x in t)
+
+
+def implies_le(path, x, y, upto=None, strict=False):
+    """does the path establish x <= y (x < y when strict)? 'yes' with a reason, or None"""
+    nx, ny = norm_len(x), norm_len(y)
+    if A.is_int(nx) and A.is_int(ny):
+        return "constants" if (nx[1] < ny[1] or (nx[1] == ny[1] and not strict)) else None
+    if nx == ny and not strict:
+        return "same quantity"
+    if not strict and nx[0] == "ret" and nx[1] == "min" and any(norm_len(a) == ny for a in nx[2]):
+        return "min() with the length"
+    if A.is_int(nx) and nx[1] == 0 and not strict:
+        return "zero"
+    conds = path.conds if upto is None else path.conds[:upto]
+    for t, rel, val in conds:
+        if t[0] != "bin" or t[1] not in A.CMP_OPS:
+            continue
+        a, b = norm_len(t[2]), norm_len(t[3])
+        truth = (val == 1) if rel == "==" else None
+        if rel != "==":
+            continue
+        o = t[1]
+        if truth:
+            if (a, b) == (nx, ny) and (o in ("Lt",) or (o in ("Le", "Eq") and not strict)):
+                return "guarded by %s" % o
+            if (a, b) == (ny, nx) and (o in ("Gt",) or (o in ("Ge", "Eq") and not strict)):
+                return "guarded by %s" % o
+        else:
+            if (a, b) == (nx, ny) and (o == "Ge" or (o == "Gt" and not strict)):
+                return "guarded by !%s" % o
+            if (a, b) == (ny, nx) and (o == "Le" or (o == "Lt" and not strict)):
+                return "guarded by !%s" % o
+    return None
+
+
+def slice_obligations(path):
+    """(description, x, y, strict, site, upto) obligations x <= y of the slice / copy events on a path"""
+    out = []
+    for e in path.events:
+        if e[0] == "slice":
+            _, base, rg, site, upto = e
+            ln = seq_len(base)
+            if rg[0] == "agg":
+                kind = rg[1].rsplit("::", 1)[1]
+                if kind == "RangeTo":
+                    out.append(("slice end", rg[3][0], ln, False, site, upto))
+                elif kind == "RangeFrom":
+                    out.append(("slice start", rg[3][0], ln, False, site, upto))
+                elif kind == "Range":
+                    out.append(("slice start <= end", rg[3][0], rg[3][1], False, site, upto))
+                    out.append(("slice end", rg[3][1], ln, False, site, upto))
+                elif kind == "RangeInclusive" and len(rg[3]) >= 2:
+                    out.append(("slice end (inclusive)", rg[3][1], ln, True, site, upto))
+            else:
+                out.append(("index", rg, ln, True, site, upto))
+        elif e[0] == "copy":
+            _, dst, src, site, upto = e
+            a, b = seq_len(dst), seq_len(src)
+            out.append(("copy_from_slice: destination not longer", a, b, False, site, upto))
+            out.append(("copy_from_slice: source not longer", b, a, False, site, upto))
+    return out
 
 
 def run_loader(ctx):
